@@ -88,6 +88,7 @@ Definition handled (o : outcome) : bool :=
 Record script := { sc_recvs : list rres; sc_send : sres }.
 Record pass := {
   p_tx : list (N * bytes);       (* transmitIx(data, ca) calls before the service *)
+  p_acc : list (N * bool);       (* connections the listen socket hands out in this pass: (address, already reset) *)
   p_hs : list (N * hres);        (* do_handshake answers for pending connections *)
   p_io : list (N * script) }.    (* socket answers per established connection *)
 
@@ -152,13 +153,61 @@ Fixpoint tx_all (txs : list (N * bytes)) (l : list (N * conn)) : list (N * conn)
     (ca, match lookup ca txs with Some d => set_txbs s (txbs s ++ d) | None => s end) :: tx_all txs r
   end.
 
-Definition service (c : cfg) (p : pass) (sv : server) : server * res unit :=
+Fixpoint mem_ix (ca : N) (l : list (N * conn)) : bool :=
+  match l with [] => false | (k, _) :: r => N.eqb ca k || mem_ix ca r end.
+
+(* self.ixes[ca] = fresh remoter: an existing key keeps its place in the dict, a new key goes last *)
+Fixpoint put_ix (ca : N) (l : list (N * conn)) : list (N * conn) :=
+  match l with
+  | [] => [(ca, init true)]
+  | (k, s) :: r => if N.eqb ca k then (k, init true) :: r else (k, s) :: put_ix ca r
+  end.
+Definition put_all (cas : list N) (l : list (N * conn)) : list (N * conn) := fold_left (fun l ca => put_ix ca l) cas l.
+
+(* Server.serviceAxes: a connection already reset when accepted (getpeername raises) is closed and skipped;
+   an address that is still in .ixes has its old connection closed and is replaced by the new one *)
+Fixpoint accept_ix (acc : list (N * bool)) (l : list (N * conn)) : list (N * conn) * list N :=
+  match acc with
+  | [] => (l, [])
+  | (ca, dead) :: r =>
+    if dead then let (l', cl) := accept_ix r l in (l', ca :: cl)
+    else let (l', cl) := accept_ix r (put_ix ca l) in (l', if mem_ix ca l then ca :: cl else cl)
+  end.
+
+(* ServerTls.serviceAxes: same, into .cxes (a pending connection of that address is closed and replaced) *)
+Fixpoint accept_cx (acc : list (N * bool)) (l : list N) : list N * list N :=
+  match acc with
+  | [] => (l, [])
+  | (ca, dead) :: r =>
+    if dead then let (l', cl) := accept_cx r l in (l', ca :: cl)
+    else if existsb (N.eqb ca) l then let (l', cl) := accept_cx r l in (l', ca :: cl)
+    else accept_cx r (l ++ [ca])
+  end.
+
+(* sockets closed by serviceCxes, in order: aborted handshakes, and established connections replaced by a
+   completed handshake from the same address *)
+Definition cx_closed (hs : list (N * hres)) (l : list N) (ix : list (N * conn)) : list N :=
+  flat_map (fun ca => match remoter_handshake (hs_of hs ca) with
+                      | HsConnected => if mem_ix ca ix then [ca] else []
+                      | HsPending => []
+                      | _ => [ca]
+                      end) l.
+
+(* everything before the receive phase: transmitIx calls, accepts, handshakes *)
+Definition staged (c : cfg) (p : pass) (sv : server) : list (N * conn) * list N * list N :=
   let ix0 := tx_all (p_tx p) (ixes sv) in
-  let '(pend, conn, ab) := service_cxes (p_hs p) (cxes sv) in
-  let ix1 := ix0 ++ map (fun ca => (ca, init true)) conn in
+  if is_tls (kd c) then
+    let (cxa, cla) := accept_cx (p_acc p) (cxes sv) in
+    let '(pend, conn, _) := service_cxes (p_hs p) cxa in
+    (put_all conn ix0, pend, cla ++ cx_closed (p_hs p) cxa ix0)
+  else
+    let (ixa, cla) := accept_ix (p_acc p) ix0 in (ixa, cxes sv, cla).
+
+Definition service (c : cfg) (p : pass) (sv : server) : server * res unit :=
+  let '(ix1, pend, cl0) := staged c p sv in
   let (ix2, cl) := recv_all c (p_io p) ix1 in
   let (ix3, r) := send_all c (p_io p) ix2 in
-  ({| ixes := ix3; cxes := pend; closed := closed sv ++ ab ++ cl |}, r).
+  ({| ixes := ix3; cxes := pend; closed := closed sv ++ cl0 ++ cl |}, r).
 
 (* ---------- correspondence ---------- *)
 Record ixsnap := { is_ca : N; is_cut : bool; is_tx : N; is_rx : N }.
